@@ -160,6 +160,9 @@ func loadProgram(repo, verif string) (*Program, error) {
 			p.contracts[c.Func] = c
 		}
 	}
+	for _, c := range p.contracts {
+		p.computeRenames(c)
+	}
 	// library specs and lemmas
 	for _, n := range names {
 		full := filepath.Join(specDir, n)
